@@ -7,7 +7,7 @@ cp /repo/src/diagonal.works/b6/go.sum harness/go.sum
 [ -d tools ] && cp /repo/src/diagonal.works/b6/go.sum tools/go.sum || true
 # Lean: every module of the library (models, specs, proofs) and every driver executable
 EXES=$(sed -n 's/^name = "\(c[0-9][0-9][a-z0-9]*\)"$/\1/p' lean/lakefile.toml | tr '\n' ' ')
-(cd lean && lake build B6 $EXES)
+(cd lean && for t in B6 $EXES; do lake build $t || echo "setup: lean target $t failed (reported per check)"; done)
 # Go: warm the build cache for every harness command (checks rebuild incrementally from /repo)
 (cd harness && go build -tags verif -o /dev/null ./... ) || echo "setup: some harness commands failed to build (reported per check)"
 [ -d tools ] && (cd tools && go build -o /dev/null ./... ) || true
